@@ -115,7 +115,16 @@ Definition sources_add_up (imm ns cr : list Q) : bool :=
 Definition growing_production_ok (imm ns cr : list Q) : bool :=
   all_b (fun d => Qeq_bool (round_dec 3 d) 0) (lsub cr (ladd imm ns)).
 
-Definition extract (x : rep_in) : result extracted :=
+(* np.maximum(x, 0) *)
+Definition Qmax0 (x : Q) : Q := if Qle_bool 0 x then x else 0.
+
+(* "outdoor crop production for humans": production (billion kcals) minus feed and biofuel (billion people fed), as the
+   code does; clamp = true is the shipped code (np.maximum(..., 0), fix of 2026-10-02), clamp = false the code before
+   that fix (kept for the refutation c01_reported_immediate_crops_negative_before_clamp_fix) *)
+Definition crop_production_for_humans (clamp : bool) (prod cr_f cr_b : list Q) : list Q :=
+  let d := lsub (lsub prod cr_f) cr_b in if clamp then map Qmax0 d else d.
+
+Definition extract_gen (clamp : bool) (x : rep_in) : result extracted :=
   let n := r_n x in let km := r_km x in let c := r_conv x in
   let sf := extract_generic_kcals n km (v_sf_h x) 1 in
   let sw := extract_generic_kcals n km (v_sw_h x) (r_sw_kcals x) in
@@ -127,8 +136,7 @@ Definition extract (x : rep_in) : result extracted :=
   let cr := create_food_kcals n km (v_cr_h x) in      (* the zeros_like branch gives the same zeros *)
   let cr_b := create_food_kcals n km (v_cr_b x) in
   let cr_f := create_food_kcals n km (v_cr_f x) in
-  (* production (billion kcals) minus feed and biofuel (billion people fed): as the code does *)
-  let prod_h := lsub (lsub (r_crops_prod x) cr_f) cr_b in
+  let prod_h := crop_production_for_humans clamp (r_crops_prod x) cr_f cr_b in
   (* np.subtract refuses arrays of different lengths *)
   if negb (same_len (r_crops_prod x) cr_f && same_len (r_crops_prod x) cr_b) then Rejected ValueRejected else
   let split :=
@@ -148,6 +156,9 @@ Definition extract (x : rep_in) : result extracted :=
         Ok {| e_sf := sf; e_cr := cr; e_sw := sw; e_cs := cs; e_scp := scp; e_gh := gh; e_fish := fish;
               e_meat := meat; e_milk := milk; e_imm := imm; e_ns := ns |}
   end.
+
+Definition extract : rep_in -> result extracted := extract_gen true.
+Definition extract_before_clamp_fix : rep_in -> result extracted := extract_gen false.
 
 (* ------------------------------------------------------------------ Interpreter *)
 
@@ -200,14 +211,17 @@ Definition interpret (c : conv) (e : extracted) : result interpreted :=
                  k_imm := ke (e_imm e); k_ns := ke (e_ns e); k_sf := ke (e_sf e) |}
   end.
 
-Definition report (x : rep_in) : result (extracted * interpreted) :=
-  match extract x with
+Definition report_gen (clamp : bool) (x : rep_in) : result (extracted * interpreted) :=
+  match extract_gen clamp x with
   | Rejected r => Rejected r
   | Ok e => match interpret (r_conv x) e with
             | Rejected r => Rejected r
             | Ok i => Ok (e, i)
             end
   end.
+
+Definition report : rep_in -> result (extracted * interpreted) := report_gen true.
+Definition report_before_clamp_fix : rep_in -> result (extracted * interpreted) := report_gen false.
 
 (* ------------------------------------------------------------------ link with the LP (Model/LP.v) *)
 
